@@ -46,7 +46,8 @@ TRUSTED = [
     "decision procedure with tolerance 1e-11 * scale (tolerance stream)",
     "the projection matrix P itself is an oracle value here (what each method computes before the tail of "
     "embed() is the subject of C06/C10/C19)",
-    "g++ ASan/UBSan/_GLIBCXX_ASSERTIONS as the memory-safety observer",
+    "g++ ASan + _GLIBCXX_ASSERTIONS as the memory-safety observer (UBSan in addition in the thorough tier only: the "
+    "driver instantiates all twenty methods and UBSan adds 25 s to its build)",
 ]
 
 
@@ -624,6 +625,13 @@ def translate(ctx):
     return True
 
 
+def harness_flags(quick):
+    """this driver instantiates all twenty methods (public API): 80 s of compile time with ASan+UBSan at -O0.
+    Quick tier: AddressSanitizer + _GLIBCXX_ASSERTIONS only (the memory-safety observer), which brings the build
+    to 55 s and keeps the cold quick run inside its budget on a loaded machine; thorough tier: ASan + UBSan."""
+    return ["-O0", "-g1", "-fno-sanitize=undefined"] if quick else ["-O0", "-g1"]
+
+
 def build_cases(ctx, quick):
     rng = ctx.rng
     cases, hist = [], {}
@@ -654,7 +662,7 @@ def run(ctx):
     quick = ctx.quick
     translate(ctx)
     coq = ctx.coq()
-    exe = ctx.cpp("harness/c07.cpp", extra=["-O0", "-g1"])
+    exe = ctx.cpp("harness/c07.cpp", extra=harness_flags(quick))
     mexe = ctx.extract()
     st = Stats()
     cases, hist = build_cases(ctx, quick)
@@ -722,7 +730,7 @@ def run(ctx):
 
 def replay(ctx, case):
     translate(ctx)
-    exe = ctx.cpp("harness/c07.cpp", extra=["-O0", "-g1"])
+    exe = ctx.cpp("harness/c07.cpp", extra=harness_flags(ctx.quick))
     mexe = ctx.extract()
     c = case_from_json(case)
     st = Stats()
